@@ -87,6 +87,19 @@ def gen_plan(rng: Rng, tier: str, faulty: bool = False, enum: bool = False, base
     ops: List[Dict[str, Any]] = [{"op": "load", "mode": "ta", "via": "dir", "include_last": inc}]
     n_graphs = 0
     wrote_sibling = False
+    rr = rng.fork("replace")
+    if not faulty and rr.chance(0.3):
+        # the world outside replaces a source file while the session lives (a newer export, a copy that keeps its
+        # timestamps): a writer has read the file before, the session loads again, the writers must then preserve the
+        # events that are on disk *now*. Done first, so that every sibling written later derives from the new content.
+        f = rr.choice(files)
+        first = ({"op": "gen_counters", "series": rr.choice([None, "queue"]), "ranks": [f["rank"]], "suffix": None})
+        ops.append(first)
+        ops.append({"op": "replace_source", "path": f["name"], "pick": rr.below(1000),
+                    "mtime": rr.choice(["keep", "keep", "now", "older"])})
+        ops.append({"op": "load", "mode": "ta", "via": "dict", "files": {str(x["rank"]): x["name"] for x in files},
+                    "abs_files": rr.chance(0.5), "include_last": inc})
+        ops.append(dict(first))
     for _ in range(rng.randint(1, 4)):
         kind = rng.weighted([("counters", 5), ("overlay", 4), ("write", 3), ("update_rank", 2), ("discover", 2)])
         if kind == "counters":
@@ -418,6 +431,10 @@ def check(plan: Dict[str, Any], execution: Dict[str, Any], props: Optional[Set[s
                 src = trace_files.get(str(o["rank"]))
                 check_overlay(res, o, obs, g, ws, src, o.get("environ") or {}, si, r["i"])
                 res.states.add(("overlay", bool(o.get("only_critical")), bool(o.get("all_edges")), bool(o.get("environ"))))
+            elif kind == "replace_source":
+                if not obs.get("skipped") and obs.get("path") in ws.files:
+                    ws.files[obs["path"]]["doc"] = obs["doc"]
+                    res.probe("source_replaced_in_session")
             elif kind == "write_trace":
                 src = ws.files.get(o["src"])
                 for name, info in obs["files"].items():
